@@ -149,6 +149,7 @@ func TestC17(t *testing.T) {
 	// aim at every row of the format table: the row's fixed bits with all variable bits zero, all ones, and a few
 	// random fillings (rows whose whole word is fixed - NOP, WFI, SEV ... - are hit by nothing else in the quick tier)
 	var rowWords []uint32
+	var runWords int64
 	if shard == 0 {
 		rr := vmon.NewRng(seed, 17)
 		fills := 24
@@ -161,7 +162,25 @@ func TestC17(t *testing.T) {
 			for k := 0; k < fills; k++ {
 				rowWords = append(rowWords, val|uint32(rr.Uint64())&^mask)
 			}
+			// every run of consecutive variable bits all ones with the other variable bits zero, and the reverse:
+			// wherever the operand fields of the row begin and end, each of them is seen all-ones and all-zeros beside
+			// all-zero and all-one neighbours (alias conditions and reserved encodings hang on such values)
+			var pos []uint
+			for b := uint(0); b < 32; b++ {
+				if mask&(1<<b) == 0 {
+					pos = append(pos, b)
+				}
+			}
+			for i := range pos {
+				var run uint32
+				for j := i; j < len(pos); j++ {
+					run |= 1 << pos[j]
+					rowWords = append(rowWords, val|run, val|(^mask&^run))
+					runWords++
+				}
+			}
 		}
+		rep.Stat("table_row_field_run_words", runWords*2)
 		rep.Stat("table_rows_aimed_at", int64(len(ref.VerifRows())))
 	}
 	// watchdog: a word whose decoding does not come back within 30 s never will (a decode takes well under a
